@@ -24,6 +24,8 @@ CLAIMS = {
          "TLC model checking of Pdb.tla (Corrupt actions) + behaviour replay on damaged real log files"),
  "C16": ("Pdb.tla IoFail actions (append torn/absent, enact after any subset of writes, other steps) and DropErr with ReadLatest in the error state and prefix recovery containing everything synced; behaviours replayed with real injected I/O failures (n-th file operation of the step fails), the failing call must return the error, commits must then be refused, reads unchanged, reopen within bounds",
          "TLC model checking of Pdb.tla (IoFail actions) + behaviour replay with injected I/O failures"),
+ "C04": ("Pdb.tla cursor actions (abstract ordered-map iterator Start/End/At/Seeked over the latest committed state) checked with the pipeline model; TLC-generated behaviours with seek/first/last/next/prev, direction changes and commits/pipeline steps between cursor calls replayed through a real BTreeIterator; long recorded histories over larger key universes with the iterator open across commits validated by TLC (every returned key/value)",
+         "TLC model checking of Pdb.tla (cursor actions) + behaviour replay + TLC trace validation"),
 }
 PENDING_REASON = "check under construction in this round (spec module planned in DESIGN.md); not yet claimed"
 props = [json.loads(l) for l in open(os.path.join(V, "properties.jsonl"))]
